@@ -201,7 +201,18 @@ def rules_planner_links(A: Analysis, rep, F: Optional[PlannerFacts] = None):
                   "dependents link against lt.output_ops, but the new op is not appended to it on every path")
     # PL5 initial ops
     init_apps = F.appends(F.initial_ops)
-    if len(init_apps) != 1:
+    post = A.single_def_value(fi, F.initial_ops) if not init_apps else None
+    if not init_apps and isinstance(post, (ast.ListComp, ast.GeneratorExp)):
+        # computed once the graph is complete: [op for op in all_ops if len(op.exe_deps) == 0], after the lowering loop
+        gen = post.generators[0] if len(post.generators) == 1 else None
+        okc = gen is not None and isinstance(gen.target, ast.Name) and norm(gen.iter) == F.all_ops and norm(post.elt) == gen.target.id and len(gen.ifs) == 1 and \
+            A.dnf(gen.ifs[0], True, None) in ([frozenset({("empty(%s.exe_deps)" % gen.target.id, True)})], [frozenset({("empty(%s._exe_deps)" % gen.target.id, True)})])
+        dn = [n for n in g.nodes if n.kind == "stmt" and isinstance(n.ast, (ast.Assign, ast.AnnAssign)) and n.ast.value is post]
+        after_loop = bool(dn) and not any(id(dn[0].ast) == id(x) for x in ast.walk(w.loop)) and g.all_paths_pass(g.entry, dn[0], [w.header], skip_labels=skip)
+        rep.check(okc and after_loop, "PL5", "initial_ops iff no exe_deps", post,
+                  "initial_ops = the registered ops without dependencies, computed after the whole graph was linked",
+                  "initial_ops is `%s`" % norm(post)[:100])
+    elif len(init_apps) != 1:
         rep.bad("PL5", "initial_ops", w.loop, "expected exactly one append to the initial-operations list, found %d" % len(init_apps))
     else:
         ia = init_apps[0]
@@ -268,6 +279,13 @@ def rules_planner_counts(A: Analysis, rep, F: Optional[PlannerFacts] = None):
     incs = [n for n in w.nodes() if n.kind == "stmt" and isinstance(n.ast, ast.AugAssign) and norm(n.ast.target) == F.num]
     inc_ok = all(isinstance(n.ast.op, ast.Add) and norm(n.ast.value) == "1" for n in incs)
     cons_nodes = [cn for (cn, _v, _c, _k) in F.constructions]
+    # the total may also be taken from the finished list: num_tasks_to_run = len(all_ops), after the loop
+    total_by_len = False
+    if not incs:
+        nv = A.single_def_value(fi, F.num)
+        if nv is not None and norm(nv) == "len(%s)" % F.all_ops:
+            dn = [n for n in g.nodes if n.kind == "stmt" and isinstance(n.ast, (ast.Assign, ast.AnnAssign)) and n.ast.value is nv]
+            total_by_len = bool(dn) and not any(id(dn[0].ast) == id(x) for x in ast.walk(w.loop)) and g.all_paths_pass(g.entry, dn[0], [w.header], skip_labels=skip)
     for ap in all_append:
         paths_wo_cons = not g.all_paths_pass(pop, ap, cons_nodes, skip_labels=skip)
         two_cons = any(b in g.reach([m for (m, l) in a.succ if not skip(l)], skip_labels=skip) for a in cons_nodes for b in cons_nodes)
@@ -278,7 +296,7 @@ def rules_planner_counts(A: Analysis, rep, F: Optional[PlannerFacts] = None):
         before = [n for n in incs if g.reachable(n, ap, skip_labels=skip)]
         after = [n for n in incs if g.reachable(ap, n, skip_labels=skip)]
         end_wo = w.reaches_backedge([m for (m, l) in ap.succ if not skip(l)], removed=after) if not before else None
-        cnt_ok = inc_ok and len(before) + len(after) == 1 and (before and g.all_paths_pass(pop, ap, before, skip_labels=skip) or (after and end_wo is None))
+        cnt_ok = total_by_len or (inc_ok and len(before) + len(after) == 1 and (before and g.all_paths_pass(pop, ap, before, skip_labels=skip) or (after and end_wo is None)))
         rep.check(bool(cnt_ok), "PL6", "one-count-per-op", ap.ast,
                   "num_tasks_to_run is incremented by exactly 1 for every registered op",
                   "progress total and executed operations disagree: %d increment site(s), +1 form=%s" % (len(incs), inc_ok))
